@@ -97,7 +97,7 @@ for p in props:
             "C14": " Added later: recorded lengths at isize::MAX, 2^63 and usize::MAX.",
             "C15": " Added later: zero-sized headers and elements that have destructors.",
             "C16": " Added later: clone_from entry points (direct, Vec, Option); every over-limit cell also with standard error unwritable and closed.",
-            "C17": " Added later: every grid also with a (de)serializer whose is_human_readable() is false; panicking callbacks; loom exploration of deserialize_in_place against concurrent readers and releasers.",
+            "C17": " Added later: every grid also with a (de)serializer whose is_human_readable() is false; panicking callbacks; loom exploration of deserialize_in_place against concurrent readers and releasers; zero-sized payloads ((), PhantomData, [u8;0], ((),()), a hand-written unit struct) and a payload size ladder [u64;1..32] (8..256 bytes) in the serialize, deserialize and in-place grids.",
         }
         text += extra_text.get(pid, "")
         if pid == "C04":
